@@ -173,8 +173,8 @@ nothing; their witnesses live in `corpus/` or in the generators.
 
 `quick`: 6 s - 120 s per property on an idle 16-core machine (whole set about 10 minutes; C13, C17 and C11 are the
 slowest), `setup.sh` (full `.vo` build plus `coqchk`) about 6 minutes more on a fresh copy.  `thorough`: larger complete
-domains (documented per property in MANIFEST `level_claimed.text`), 5-10x more random cases; one to three minutes for
-most properties, 20 - 35 minutes for C13, C17 and C18 (whole set about two and a half hours).  BLAS threads are limited
+domains (documented per property in MANIFEST `level_claimed.text`), 5-10x more random cases; half a minute to two minutes for
+most properties, 11 - 20 minutes for C11, C13, C17 and C18 (whole set about one hour and ten minutes; last full pass: all 20 exit 0).  BLAS threads are limited
 to two per process by `check`; every `coqc` call carries its own time limit and a timed-out chunk of cases is bisected.
 The quick checks were additionally run under PRNG seeds 0 .. 8 on the unchanged tree (`VERIF_SEED`); the two alarms this
 raised were errors of the machinery and are described in section 6.
@@ -280,9 +280,9 @@ LIMITS = r'''
   `Props/Cxx.vo` (one process per property file, in parallel; logs `build/coqchk_OFV.Props.Cxx.log`, summary
   `build/coqchk.log`).  `coqchk` has no virtual machine, so the bounded table theorems (`vm_compute` over all n <= 128 etc.)
   are re-evaluated by plain conversion there: 19 of the 20 property files finish in 40 s - 8 min; `Props/C05` (the
-  Bravyi-Kitaev tables for n <= 128 and the tree tables for n <= 40) needs far longer than the 15-minute limit given to each
-  process in `setup.sh` and is listed there as not re-checked (exit 124) - it is checked by the `coqc` kernel only, like every
-  file during the build.  (A single `coqchk` run over all files, as in earlier versions of `setup.sh`, exceeded 50 minutes and
+  Bravyi-Kitaev tables for n <= 128 and the tree tables for n <= 40) needs about 50 minutes (run once by hand with `COQCHK_TIMEOUT=5000`: exit 0, same axiom
+  summary), far longer than the 15-minute limit given to each process in `setup.sh`, where it is therefore listed as not
+  re-checked (exit 124) and rests on the `coqc` kernel check of the build alone.  (A single `coqchk` run over all files, as in earlier versions of `setup.sh`, exceeded 50 minutes and
   made `setup.sh` fail; `COQCHK_TIMEOUT` sets the limit.)
 * Axioms: **none declared**.  `Print Assumptions` reports "Closed under the global context" for every
   property theorem (recorded in each evidence file) except one: `C15_suzuki_split_cancels` is stated over
